@@ -30,6 +30,23 @@ fn generate_insert_call(max_memory_expr: &TokenStream2) -> TokenStream2 {
     }
 }
 
+/// Verification hook H1 (cargo feature `verif`, add-only): a yield point before the acquisition of the
+/// order mutex in generated code, plus a marker reporting the release of the guard.
+fn verif_yield(site: u32, lock_ident: &syn::Ident) -> TokenStream2 {
+    if !cfg!(feature = "verif") {
+        return quote! {};
+    }
+    quote! {
+        cachelito_core::verif::yield_point(
+            #site,
+            cachelito_core::verif::addr_of(&*#lock_ident),
+            cachelito_core::verif::Acq::Exclusive,
+            &|| !#lock_ident.is_locked(),
+        );
+        let _verif_held = cachelito_core::verif::hold(cachelito_core::verif::addr_of(&*#lock_ident));
+    }
+}
+
 /// Verification hook H2 (cargo feature `verif`, add-only): registers closures that dump the
 /// async cache of this function (entries, order queue) and shift the entries' timestamps.
 fn verif_registration(
@@ -403,6 +420,10 @@ pub fn cache_async(attr: TokenStream, item: TokenStream) -> TokenStream {
         )
     };
 
+    // Verification hook H1 (cargo feature `verif`, add-only): yield points before lock acquisitions
+    let verif_y_clear_order = verif_yield(6001, &order_ident);
+    let verif_y_cond_order = verif_yield(6002, &order_ident);
+
     // Generate invalidation registration code
     let invalidation_registration = if !attrs.tags.is_empty()
         || !attrs.events.is_empty()
@@ -427,6 +448,7 @@ pub fn cache_async(attr: TokenStream, item: TokenStream) -> TokenStream {
                 cachelito_core::InvalidationRegistry::global().register_callback(
                     #fn_name_str,
                     move || {
+                        #verif_y_clear_order
                         let mut order_write = #order_ident.lock();
                         #cache_ident.clear();
                         order_write.clear();
@@ -454,6 +476,7 @@ pub fn cache_async(attr: TokenStream, item: TokenStream) -> TokenStream {
                         .collect();
 
                     // Remove matched keys
+                    #verif_y_cond_order
                     let mut order_write = #order_ident.lock();
                     for key in &keys_to_remove {
                         #cache_ident.remove(key);
